@@ -14,8 +14,21 @@ import (
 // different value of that parameter get whichever result was cached first: error hints (and with them Error()
 // texts) then depend on what the process did earlier.
 func c13MemoKey(c *Ctx, p *core.Prog) {
+	c13MemoScan(c, p, "")
+}
+
+// c10MemoPublishOnce: the same scan, deciding the publish-once clause under the given rule name.
+func c10MemoPublishOnce(c *Ctx, p *core.Prog, rule string) {
+	c.R.Rule(rule, "a memoising function (one that looks a key up in a shared cache and stores under it) stores under that key at most once per run: a placeholder or provisional value stored first is what concurrent readers receive as the answer")
+	c13MemoScan(c, p, rule)
+}
+
+func c13MemoScan(c *Ctx, p *core.Prog, publishRule string) {
 	r := c.R
-	r.Rule("memo-key", "in pkg/errors, pkg/sql/keywords and the parser/tokenizer packages, a function that looks a key up in a map and stores a computed value under the same key computes that value only from parameters the key is computed from")
+	nPub := 0
+	if publishRule == "" {
+		r.Rule("memo-key", "in pkg/errors, pkg/sql/keywords and the parser/tokenizer packages, a function that looks a key up in a map and stores a computed value under the same key computes that value only from parameters the key is computed from")
+	}
 	n := 0
 	for _, fn := range p.SrcFuncs("pkg/errors", "pkg/sql/keywords", "pkg/sql/parser", "pkg/sql/tokenizer", "pkg/gosqlx") {
 		if len(fn.Params) < 2 && !(len(fn.Params) >= 1 && fn.Signature.Recv() == nil) {
@@ -83,10 +96,48 @@ func c13MemoKey(c *Ctx, p *core.Prog) {
 			}
 		}
 		_ = updates
+		// publish-once: a memoising function stores under one key at most once per run; an earlier store (a placeholder,
+		// a provisional answer) is what a concurrent reader of the cache gets as the final answer
+		if publishRule != "" {
+			pseq := 0
+			for i, s1 := range sets {
+				if len(gets[s1.cache]) == 0 {
+					continue
+				}
+				for j, s2 := range sets {
+					if i == j || s1.cache != s2.cache || s1.key != s2.key || s1.at == s2.at {
+						continue
+					}
+					if s1.at.Block() == s2.at.Block() && s1.at.Pos() > s2.at.Pos() {
+						continue
+					}
+					if !instrFollows(s1.at, s2.at) {
+						continue
+					}
+					pseq++
+					r.Violate(publishRule, core.FnName(fn)+sprintf("|publish#%d", pseq), p.Pos(s1.at.Pos()), "this store publishes a value under the key that the same run overwrites at "+p.Pos(s2.at.Pos())+": between the two, every other goroutine that looks the key up gets the provisional value as the answer, so a call's result depends on what runs beside it")
+				}
+			}
+			if pseq == 0 {
+				for _, s1 := range sets {
+					if len(gets[s1.cache]) > 0 {
+						nPub++
+						r.OK(publishRule, core.FnName(fn)+"|"+s1.cache, p.Pos(s1.at.Pos()), "one store per key and run")
+						break
+					}
+				}
+			}
+			continue
+		}
 		seq := 0
 		for _, s := range sets {
 			if len(gets[s.cache]) == 0 {
 				continue // not a memo (no lookup of the same cache in this function)
+			}
+			if _, kp := s.key.(*ssa.Parameter); kp {
+				if _, vp := s.val.(*ssa.Parameter); vp {
+					continue // a plain setter (key and value are its parameters): nothing is computed here
+				}
 			}
 			n++
 			seq++
@@ -108,6 +159,10 @@ func c13MemoKey(c *Ctx, p *core.Prog) {
 				r.Violate("memo-key", key, p.Pos(s.at.Pos()), "the value stored in the cache depends on parameter "+strings.Join(missing, ", ")+", which is not part of the key: a later call with the same key and a different "+strings.Join(missing, "/")+" gets the result cached for the earlier one, so the same input can produce different hints/messages depending on what was processed before")
 			}
 		}
+	}
+	if publishRule != "" {
+		r.Floor(publishRule, nPub, 1, "memoising functions")
+		return
 	}
 	r.Extra("memoising_functions", n)
 }
